@@ -146,7 +146,8 @@ def main():
         elif still is False:
             notes.append("known finding %s no longer reproduces" % k["id"])
     # violations that match a known finding's predicate are not new
-    new_violations = [v for v in violations if not propdefs.covered_by_known(v, known)]
+    allknown = [k for p_ in propdefs.PROPS for k in vlib.known_findings(p_)]
+    new_violations = [v for v in violations if not propdefs.covered_by_known(v, allknown)]
     # ---------------- 6 decision
     rc = 0
     out_lines = list(kf_lines)
@@ -162,7 +163,7 @@ def main():
             found = propdefs.search(pid, broken, streams, tier, seed, procs) or []
         except Exception:
             notes.append("search crashed: " + traceback.format_exc()[-800:])
-        found = [v for v in found if not propdefs.covered_by_known(v, known)]
+        found = [v for v in found if not propdefs.covered_by_known(v, allknown)]
         if found:
             for v in found[:3]:
                 v = dict(v); v["broken_obligation"] = ["%s: %s" % (k, n) for k, n, _ in broken]
